@@ -641,6 +641,15 @@ def h_bounded_named(inp, body):
     return {"reproduced": not res["ok"], "observed": res.get("witness")}
 
 
+def h_bounded_any(inp, body):
+    """property-level fallback replay: re-run a multi-check native stand-in; reproduced iff any of its checks fails"""
+    import bounded
+    res = getattr(bounded, inp["what"])(inp)
+    checks = res.get("checks") or {"": res}
+    bad = {k: v.get("witness") for k, v in checks.items() if not v.get("ok", True)}
+    return {"reproduced": bool(bad), "observed": bad or "every check of the native stand-in %s passes" % inp["what"]}
+
+
 def h_element_junction_tuples(inp, body):
     from pandapipes.toolbox import element_junction_tuples
     return {"reproduced": True, "observed": sorted(list(x) for x in element_junction_tuples())}
